@@ -41,6 +41,23 @@ def dim(n):
 
 
 def run(chk, facts, tier):
+    chk.rule('last-index-sentinel-checked', 'a local holding last_handle_index(<ending handle>) (invalid_attribute_index = "every attribute lies behind the range") is used as the upper bound of a range only '
+             'where a dominating test excluded the sentinel', floor=1)
+    for fn in facts.functions:
+        if fn.kind != 'pattern' or not fn.q.startswith('bluetoe::server::'):
+            continue
+        for d in fn.body.find(lambda n: n.k == 'VarDecl' and n.c and strip_casts(n.c[0]).is_call('last_handle_index')):
+            L = d.n
+            uses = []
+            for n in fn.body.walk():
+                b = as_binop(n)
+                if b and b[0] in ('<', '<=', '>', '>=') and (is_name(b[1], L) or is_name(b[2], L)):
+                    uses.append(n)
+            bad = [u for u in uses if not any(((is_name(l, L) and not isinstance(r, int) and strip_casts(r).n == 'invalid_attribute_index') or (not isinstance(r, int) and is_name(r, L) and not isinstance(l, int) and strip_casts(l).n == 'invalid_attribute_index')) and op == '!='
+                                              for l, op, r in guard_atoms(fn, u) + [a for c, o in must_hold(u) for a in atoms(c, o)])]
+            chk.instance('last-index-sentinel-checked', fn, '%s = last_handle_index(..) in %s: %d range comparison(s)' % (L, fn.name, len(uses)), bool(uses) and not bad,
+                         '' if uses and not bad else ('the sentinel invalid_attribute_index (all attributes lie behind the requested range) is compared as if it were an index at line %d: it is the largest value, so the range is unbounded and attributes outside the requested handles are returned' % bad[0].l if bad else 'the result is never used as a bound'),
+                         node=bad[0] if bad else d, key='%s in %s' % (L, fn.name))
     chk.rule('end-handle-mapping', 'every first_index_by_handle(<ending handle>) is followed by a step back under handle_by_index(idx) != ending_handle that cannot wrap at idx == 0 (or handles are compared directly)', floor=3)
     chk.rule('no-handle-index-mix', 'attribute handles and attribute indices are not mixed in stores, member initialisers and comparisons of the discovery code', floor=20)
     chk.rule('ascending-bounded-iteration', 'all_attributes / collect_handle_uuid_tuples iterate ascending from the mapped start to the mapped end, the tuple loop also bounded by number_of_attributes and the remaining output', floor=2)
